@@ -5,6 +5,8 @@ case = {"via": "f"|"c", "m": metric key, "yt"/"yp": list of COLUMNS (floats, dya
         "ytr": columns|None, "ytr_list": bool, "sp": int, "pd": None|[train_start, true_start],
         "hw": None|[floats], "mo": "raw"|"uni"|"bad"|[floats], "sym": bool, "sqrt": bool, "thr": float,
         "l": str, "r": str, "rlf": base metric key, "oned": bool, "c": float (rescaling constant, power of two)}
+Magnitude dimension: the series of a case (and the asymmetric threshold) may all carry a common factor 2^e
+(MAG_EXPS; exact in floats), so that errors / naive errors / denominators range from far below EPS to 2^40.
 """
 import itertools, math, warnings
 from fractions import Fraction
@@ -48,6 +50,7 @@ OBLIGATIONS = [
     "SkVerif.C06.scaled_aggregate_is_ratio_of_averages",
     "SkVerif.C06.scaled_scale_invariant",
     "SkVerif.C06.scaled_not_scale_invariant_when_clamped",
+    "SkVerif.C06.scaled_floor_only_below_eps",
     "SkVerif.C06.gm_eq_spec",
     "SkVerif.C06.gm_weighted_exponents",
     "SkVerif.C06.gmrae_univariate_eq_spec",
@@ -64,7 +67,10 @@ RULE = ("exhaustive small scope: 18 metrics x option grid x all y_true,y_pred in
         "small set), plus the 7 median-type metrics x 5 horizon-weight patterns x all y_true,y_pred in {-1,0,2}^3 "
         "(quick: seed-rotated 1/8 slice); structured random: n<=12, 1-3 output columns, zeros, sign changes, ties, constant and "
         "perfect forecasts, sp<=4, horizon and output weights; class wrappers; malformed stream (shape / weight / sp / option errors); "
-        "corpus (EPS-clamp regions, docstring examples, witnesses of the known findings). distinct by driver line; "
+        "magnitude dimension: about a third of the random / class cases and a further seed-rotated slice of the small scope have "
+        "all series (and the asymmetric threshold) multiplied by 2^e, e in -56..40, so that errors, in-sample naive errors and "
+        "percentage / relative denominators lie anywhere between below EPS and 2^40; rescaling constants 2^-30..2^20; "
+        "corpus (EPS-clamp regions, docstring examples, small-unit series, witnesses of the known findings). distinct by driver line; "
         "non-trivial = the real code returned a number (no error) from at least 2 horizon steps")
 LEVEL_TEXT = "proof"
 LEVEL_NOTE = ("Proved for the Rat model, all lengths / shapes / weights / options: non-negativity of all 18 metrics, zero at a perfect "
@@ -680,11 +686,13 @@ def features(c, real_out):
     main = real_out.split(" | ")[0]
     f = ["via:" + c["via"], "metric:" + c["m"]]
     if c["via"] == "c":
+        f.append("magnitude:" + _mag_bucket(c))
         f.append("object-history:" + (c.get("hist") or "fresh"))
         f.append("class-result:" + main.split(" ")[0][4:].split(":")[0][:12])
         return f
     kind = main.split(":")[0] if main[:2] in ("s:", "a:") else main
     f.append("result:" + kind)
+    f.append("magnitude:" + _mag_bucket(c))
     if c["yt"]:
         f.append("cols:%d" % len(c["yt"]))
         f.append("n:%s" % (len(c["yt"][0]) if len(c["yt"][0]) < 6 else "6+"))
@@ -712,7 +720,38 @@ def features(c, real_out):
     return f
 
 
+def _mag_bucket(c):
+    """size of the largest data value: where the case sits relative to EPS = 2^-52 and to 1"""
+    vs = [abs(v) for f_ in ("yt", "yp", "yb", "ytr") if c[f_] is not None for col in c[f_] for v in col if v]
+    if not vs:
+        return "all-zero"
+    e = math.frexp(max(vs))[1]
+    return ("below-eps" if e <= -52 else "2^-52..2^-27" if e <= -27 else "2^-27..2^-14" if e <= -14 else
+            "2^-14..2^-5" if e <= -5 else "unit" if e <= 5 else "2^5..2^20" if e <= 20 else "above-2^20")
+
+
+def _rescale(c, e):
+    """every series of the case (and the asymmetric threshold, a value on the scale of the data) times 2^e; exact in floats"""
+    f_ = 2.0 ** e
+    d = dict(c)
+    for k_ in ("yt", "yp", "yb", "ytr"):
+        if c[k_] is not None:
+            d[k_] = [[v * f_ for v in col] for col in c[k_]]
+    d["thr"] = c["thr"] * f_
+    if c.get("old"):
+        d["old"] = dict(c["old"]); d["old"]["thr"] = c["old"]["thr"] * f_
+    return d
+
+
 def shrink(c):
+    # bring the magnitude towards 1 (all series by a common power of two)
+    vs = [abs(v) for f_ in ("yt", "yp", "yb", "ytr") if c[f_] is not None for col in c[f_] for v in col if v]
+    if vs:
+        e = math.frexp(max(vs))[1]
+        if e < -3 or e > 7:
+            yield _rescale(c, -e + 2)
+            yield _rescale(c, (-e + 2) // 2)
+            yield _rescale(c, 4 if e < 0 else -4)
     n = len(c["yt"][0]) if c["yt"] else 0
     k = len(c["yt"])
     # drop a horizon step
@@ -869,6 +908,16 @@ def _weights(rng, n):
     return [0.5] * n
 
 
+# common factor 2^e of all series of a case: errors and naive errors from below EPS = 2^-52 up to 2^40
+MAG_EXPS = (-56, -48, -44, -40, -36, -32, -28, -24, -20, -16, -12, -8, 8, 16, 24, 40)
+RESCALE = (4.0, 0.5, 0.125, 16.0, 2.0 ** -10, 2.0 ** 12, 2.0 ** -20, 2.0 ** 20, 2.0 ** -30)
+
+
+def magnitude_scope(ss, step, off):
+    """a slice of the small scope with every series times 2^e, e rotating over MAG_EXPS"""
+    return [_rescale(c, MAG_EXPS[i % len(MAG_EXPS)]) for i, c in enumerate(ss[off::step])]
+
+
 def random_case(rng, m=None, via="f"):
     m = m or rng.choice(METRICS)
     n = rng.choice((1, 2, 2, 3, 3, 4, 4, 5, 6, 7, 8, 10, 12))
@@ -913,10 +962,13 @@ def random_case(rng, m=None, via="f"):
     if rng.random() < 0.15:
         s0 = rng.randrange(-3, 4)
         pdm = [s0, s0 + (len(ytr[0]) if ytr else 3) + rng.randrange(0, 3)]
-    return case(m, yt, yp, yb=yb, ytr=ytr, via=via, sp=sp, hw=hw, mo=mo, sym=rng.random() < 0.55,
-                sqrt=rng.random() < 0.4, thr=thr, l=rng.choice(("squared", "absolute")),
-                r=rng.choice(("squared", "absolute")), rlf=rng.choice(BASES), oned=rng.random() < 0.6, pdm=pdm,
-                c=rng.choice((4.0, 0.5, 0.125, 16.0)))
+    out = case(m, yt, yp, yb=yb, ytr=ytr, via=via, sp=sp, hw=hw, mo=mo, sym=rng.random() < 0.55,
+               sqrt=rng.random() < 0.4, thr=thr, l=rng.choice(("squared", "absolute")),
+               r=rng.choice(("squared", "absolute")), rlf=rng.choice(BASES), oned=rng.random() < 0.6, pdm=pdm,
+               c=rng.choice(RESCALE))
+    if rng.random() < 0.35:
+        out = _rescale(out, rng.choice(MAG_EXPS))           # data quoted in small / large units
+    return out
 
 
 def malformed_case(rng):
@@ -1003,12 +1055,12 @@ def class_cases(rng, count):
 def gen_cases(tier, rng):
     ss = small_scope()
     if tier == "thorough":
-        cases = list(ss)
+        cases = list(ss) + magnitude_scope(ss, 3, rng.randrange(3))
         nrand, nmal, ncls = 36000, 5000, 3600
     else:
         step = 8
         off = rng.randrange(step)
-        cases = ss[off::step]
+        cases = ss[off::step] + magnitude_scope(ss, 24, rng.randrange(24))
         nrand, nmal, ncls = 2700, 450, 540
     for i in range(nrand):
         cases.append(random_case(rng, METRICS[i % len(METRICS)]))
